@@ -35,17 +35,21 @@ THEOREMS = [
     "Verif.C04.F9_witness",
 ]
 RULE = (
-    "corpus (F3 inputs for a continuous channel and a time series, the like/partial-window input) + exhaustive small "
-    "scope (continuous n<=12, k<=5, dt<=3 for by/to/to-vs-by with all five reductions on a strided subset; every list of "
-    "<=2 (thorough: <=3 on a coarser grid) windows with edges in [start-2, stop+2] on small continuous channels and "
-    "irregular time series, both `where`; like: constant-rate references at every offset; arithmetic on all kind pairs) "
+    "corpus (F3 inputs for a continuous channel and a time series, the F9 like/partial-window input, pylake's own like "
+    "test) + exhaustive small scope (continuous n<=12, k<=5, dt in {1,2,3} (quick: n<=9, k<=4, dt in {1,3}) for "
+    "by/to/to-vs-by, mean and median always, sum/min/max on every third case; every step 1..4dt+1 with safe/ceil/force; "
+    "small irregular time series at every step; every single window and every list of 2 windows (quick: every fifth) "
+    "with edges in [start-2, stop+2] on 5 (thorough: 8) small continuous channels / time series, thorough also every "
+    "list of 3 windows on a grid of step 2; like: constant-rate references of period 2..6 at every offset; arithmetic "
+    "on all kind pairs with equal / shifted / truncated timestamps) "
     "+ seeded random (variable-spacing time series with force, ceil/safe on non-divisors, ordered range lists drawn around "
     "sample boundaries, references with one frame-rate change in either direction with or without the long frame, "
     "arbitrary strictly increasing references for correspondence only, channel arithmetic with equal / shifted / "
     "truncated timestamps) + malformed stream (non-list or empty range lists, rows of wrong length, invalid where/method, "
     "upsampling, variable spacing without force, time-series by, wrong reference kinds, factor 0). Values are integers "
-    "or dyadic rationals (exact in double). Non-trivial: the implementation returned at least one sample computed from "
-    ">= 2 source samples, or a documented refusal on the malformed stream."
+    "or dyadic rationals (exact in double). Non-trivial: a successful answer with at least one output sample from a "
+    "source that holds more samples than the output (so some window reduced several samples or samples were left "
+    "out); by: k>=2 and at least one block; arithmetic: at least one sample; malformed stream: a refusal."
 )
 TRUSTED = [
     "values: implementation doubles are converted exactly and compared with the model's exact rational within 1e-9*max(1,|v|) (data are small integers / dyadics, so sums are exact and mean/median/division round once)",
@@ -54,7 +58,7 @@ TRUSTED = [
     "timestamps below 2^62 (np.int64 overflow is outside the model)",
 ]
 ASSUMPTIONS = [
-    "continuous channels have dt >= 1; time-series timestamps are strictly increasing int64",
+    "continuous channels have dt >= 1; time-series timestamps are int64, strictly increasing for downsampled_to and for reference channels, non-decreasing elsewhere",
     "reduce is one of np.mean, np.sum, np.min, np.max, np.median (the theorems hold for an arbitrary function of the window's values)",
     "range lists handed to downsampled_over are judged for refusals by the code's own hull criterion (first start / last stop); for lists that are not ordered in time a RuntimeError can be raised although an inner window lies inside the channel (observation, not asserted)",
     "downsampled_like: the oracle's disjointness / within-span clauses are asserted for references with a constant period or isolated frame-rate changes; arbitrary increasing references (period growing twice in a row makes the repaired windows overlap) are checked against the model and for the value/timestamp clauses only",
@@ -312,7 +316,7 @@ def agree(case, i, ia, ma):
             xs, ys = parse_samples(a), parse_samples(b)
             if case["op"] == "like":
                 # empty windows: numpy's answer (nan / 0) against the model's marker
-                empty = {"mean": "nan", "median": "nan", "sum": Fraction(0)}.get(case["reduce"])
+                empty = {"mean": "nan", "median": "nan", "sum": Fraction(0)}.get(case["reduce"], "E")
                 ys = [(t, empty if v == "E" else v) for t, v in ys]
             if not samples_close(xs, ys):
                 return False
@@ -514,7 +518,7 @@ def oracle_like(case, ans):
             if not val_close(v, e):
                 return f"like: sample at {t} is {v}, reduce over [{a}, {b}) gives {e}", tg
         else:
-            okv = {"mean": "nan", "median": "nan", "sum": Fraction(0)}.get(case["reduce"], None)
+            okv = {"mean": "nan", "median": "nan", "sum": Fraction(0)}.get(case["reduce"], "no value")
             if v != okv:
                 return f"like: sample at {t} is {v} but its window [{a}, {b}) holds no source sample", tg
         if case.get("ref_class", "regular") == "regular":
@@ -668,7 +672,18 @@ def _shrink_src(src):
         yield s
 
 
-def shrink(case):
+def failure_class(case):
+    """(failed?, clause kind, known-finding tags) of a case on the implementation alone; shrinking stays inside the
+    class so that an unknown failure can never be minimised into the input class of a known finding"""
+    import json
+
+    ia = impl(case)
+    clause = oracle(case, ia)
+    t = tags(case, {"impl": ia, "clause": clause})
+    return bool(clause), (clause.split(":")[0] if clause else None), json.dumps(t, sort_keys=True)
+
+
+def _candidates(case):
     k = case["op"]
     for key in ("src", "ref", "a", "b"):
         if key in case:
@@ -687,6 +702,15 @@ def shrink(case):
         c = dict(case)
         c["reduce"] = "sum"
         yield c
+
+
+def shrink(case):
+    want = failure_class(case)
+    for c in _candidates(case):
+        if not want[0]:
+            yield c  # correspondence-only disagreement: common.shrink_case keeps "still disagrees"
+        elif failure_class(c) == want:
+            yield c
 
 
 # ------------------------------------------------------------------ generators
@@ -959,7 +983,7 @@ def cases(tier, rng):
                 yield {"stream": "small-scope", "op": "arith", "operator": op, "a": ta, "b": tser(tb["ts"][:-1] + [tb["ts"][-1] + 1], tb["vals"])}
 
     # ---- random
-    N = 700 if quick else 20000
+    N = 4000 if quick else 150000
     r = rng.fork("c04-random")
     for i in range(N):
         sub = r.fork(i)
